@@ -8,7 +8,7 @@ import minif
 HUGE = 1000000
 
 # name -> (rank, ((lo, hi), ...))
-ARRAYS = {"a": ((1, 10),), "b": ((1, 10),), "c": ((0, 9),), "d": ((-2, 7),),
+ARRAYS = {"a": ((1, 10),), "b": ((1, 10),), "c": ((0, 9),), "d": ((3, 12),),
           "v": ((1, 4),), "r": ((1, 4),), "w": ((0, 3),), "u": ((2, 5),),
           "m": ((1, 4), (1, 4)), "q": ((0, 3), (2, 5)), "p2": ((1, 4), (1, 4))}
 SCALARS = ["x", "y", "z"]
